@@ -1318,7 +1318,17 @@ func (c *Conn) readLine() (string, error) {
 		}
 	}
 
-	return c.text.ReadLine()
+	// A command line ends with <CRLF>. bufio.Reader.ReadLine (used by
+	// textproto) hands out the data it has buffered when the underlying
+	// reader fails, so the beginning of an over-long line, or an unterminated
+	// line at the end of the connection, would be executed as a command.
+	line, err := c.text.R.ReadString('\n')
+	if err != nil {
+		return "", err
+	}
+	line = strings.TrimSuffix(line, "\n")
+	line = strings.TrimSuffix(line, "\r")
+	return line, nil
 }
 
 func (c *Conn) reset() {
